@@ -866,3 +866,138 @@ func dependsOn(v, x ssa.Value, depth int) bool {
 	}
 	return false
 }
+
+// checkConsumedDelivers: input that a parser removes from the buffer with the answer "complete" turns
+// into an event.  Every path from the parser's entry to a complete-return passes an append to the event
+// list, with one excuse: input the charset decoder could not decode (it substitutes U+FFFD) — and that
+// excuse requires, besides the test for U+FFFD, the negative answer of a comparison of the consumed
+// bytes with the charset's own encoding of U+FFFD (bytes.Equal), because U+FFFD that was really sent
+// is a character like any other.  Dropping decoded reports because of some mode flag ("the application
+// did not ask for motion") is not an excuse: drag reports carry the same bit.
+func checkConsumedDelivers(c *Ctx, p *Prog, rule string, only func(name string) bool) {
+	for _, pi := range inputParsers(p) {
+		fn := pi.fn
+		if only != nil && !only(fn.Name()) {
+			continue
+		}
+		removed := map[*ssa.BasicBlock]bool{}
+		for _, b := range fn.Blocks {
+			for _, in := range b.Instrs {
+				if st, ok := in.(*ssa.Store); ok && st.Addr == ssa.Value(pi.evsPrm) {
+					removed[b] = true
+				}
+			}
+		}
+		type edge struct {
+			from *ssa.BasicBlock
+			idx  int
+		}
+		excused := map[edge]bool{}
+		for _, b := range fn.Blocks {
+			if len(b.Instrs) == 0 {
+				continue
+			}
+			iff, ok := b.Instrs[len(b.Instrs)-1].(*ssa.If)
+			if !ok {
+				continue
+			}
+			// a clipboard reply whose payload is not base64 has no content to deliver: the error edge
+			// of the base64 decoder is the second (and last) excuse
+			if bo, isBO := iff.Cond.(*ssa.BinOp); isBO && (bo.Op == token.EQL || bo.Op == token.NEQ) && isNilConst(bo.Y) {
+				if ex, isEx := bo.X.(*ssa.Extract); isEx {
+					if call, isCall := ex.Tuple.(*ssa.Call); isCall && strings.HasPrefix(calleeName(&call.Call), "(*encoding/base64.Encoding).Decode") {
+						if bo.Op == token.EQL {
+							excused[edge{b, 1}] = true
+						} else {
+							excused[edge{b, 0}] = true
+						}
+						continue
+					}
+				}
+			}
+			if !derivesFromBytesEqual(p, iff.Cond, 4) {
+				continue
+			}
+			// only for a rune the decoder substituted
+			sub := false
+			for _, g := range rawGuardsAt(b) {
+				if bo, isBO := g.Cond.(*ssa.BinOp); isBO {
+					if k, isK := constInt(bo.Y); isK && k == 0xFFFD && ((bo.Op == token.NEQ && !g.Positive) || (bo.Op == token.EQL && g.Positive)) {
+						sub = true
+					}
+				}
+			}
+			if sub {
+				excused[edge{b, 1}] = true
+			}
+		}
+		// reachability from entry avoiding append blocks and excused edges
+		seen := map[*ssa.BasicBlock]bool{}
+		var stack []*ssa.BasicBlock
+		if len(fn.Blocks) > 0 && !removed[fn.Blocks[0]] {
+			stack = append(stack, fn.Blocks[0])
+		}
+		for len(stack) > 0 {
+			b := stack[len(stack)-1]
+			stack = stack[:len(stack)-1]
+			if seen[b] {
+				continue
+			}
+			seen[b] = true
+			for i, s := range b.Succs {
+				if removed[s] || excused[edge{b, i}] {
+					continue
+				}
+				stack = append(stack, s)
+			}
+		}
+		bad, n := "", 0
+		for _, r := range returnsOf(fn) {
+			if len(r.Results) != 2 {
+				continue
+			}
+			if comp, isC := constBool(r.Results[1]); isC && !comp {
+				continue
+			}
+			n++
+			if seen[r.Block()] {
+				bad += "the complete-return at " + p.pos(r.Pos()) + " can be reached without an event having been appended; "
+			}
+		}
+		c.Check(bad == "" && n > 0, rule, fn.Name()+":consumed-input-becomes-an-event", p.pos(fn.Pos()), fmt.Sprintf("%d complete-return(s), %d excused edge(s) (undecodable input / payload that is not base64) %s", n, len(excused), bad))
+	}
+}
+
+// derivesFromBytesEqual: v is the result of bytes.Equal, of a module function returning such a result,
+// or a boolean combination / phi of those.
+func derivesFromBytesEqual(p *Prog, v ssa.Value, depth int) bool {
+	if depth < 0 {
+		return false
+	}
+	switch x := v.(type) {
+	case *ssa.Call:
+		if calleeName(&x.Call) == "bytes.Equal" {
+			return true
+		}
+		if callee := x.Call.StaticCallee(); callee != nil && p.allFns[callee] && callee.Pkg == p.Tcell {
+			for _, r := range returnsOf(callee) {
+				for _, res := range r.Results {
+					if derivesFromBytesEqual(p, res, depth-1) {
+						return true
+					}
+				}
+			}
+		}
+	case *ssa.Phi:
+		for _, e := range x.Edges {
+			if derivesFromBytesEqual(p, e, depth-1) {
+				return true
+			}
+		}
+	case *ssa.BinOp:
+		return derivesFromBytesEqual(p, x.X, depth-1) || derivesFromBytesEqual(p, x.Y, depth-1)
+	case *ssa.UnOp:
+		return derivesFromBytesEqual(p, x.X, depth-1)
+	}
+	return false
+}
